@@ -144,7 +144,7 @@ theorem tie_or (a b : E) : gen reg Γ (.ex (.or a b)) = mdl reg Γ (.or a b) := 
 theorem tie_deriv (v t : Nat) : gen reg Γ (.ex (.deriv v t)) = mdl reg Γ (.deriv v t) := by
   rw [mdl, Infer.traverse_deriv]
   flags
-  simp [Sym.item, modelRec, Infer.traverse_var, liftE, errClass]
+  simp [Sym.item, Sym.derivCount, modelRec, Infer.traverse_var, liftE, errClass]
   cases _root_.Infer.varQ Γ v <;> simp
   cases _root_.Infer.varQ Γ t <;> simp
   simp [Py.divQ, liftE, errClass, bind, Except.bind]
